@@ -101,7 +101,7 @@ func runWorldH(rc *RunCtx) *RunResult {
 		patches, _ := workload.ToPatches([]workload.PatchDesc{{Kind: workload.AddKey, IDs: []string{"k1", "k2"}[:1+i%2], Mark: fmt.Sprintf("m%d", i)},
 			{Kind: workload.AddSvc, IDs: []string{"s1"}, Mark: fmt.Sprintf("m%d", i)}}[:1+i%2])
 
-		createReq, err := workload.Build(&workload.OpSpec{Type: operation.TypeCreate, Hash: simenv.SHA2_256, NextUpdate: upd, NextRecovery: rec, Patches: patches, AnchorOrigin: originValue(i)})
+		createReq, err := workload.Build(&workload.OpSpec{Type: operation.TypeCreate, Hash: simenv.SHA2_256, NextUpdate: upd, NextRecovery: rec, Patches: patches, AnchorOrigin: originValue(i), SuffixType: []string{"", "ipdb", ""}[i%3]})
 		if err != nil {
 			panic(err)
 		}
